@@ -211,7 +211,12 @@ def run_shard(spec) -> ShardResult:
     class _Fail(Exception):
         pass
 
-    small = ssref.st_structures(max_abstract=6, max_stem=4, max_gap=3, min_abstract=1)
+    # mostly drawn small structures; sometimes five or six mutually crossing stems (the notation then needs letter
+    # brackets) or a chain of kissing helices
+    small = st.one_of(ssref.st_structures(max_abstract=6, max_stem=4, max_gap=3, min_abstract=1),
+                      ssref.st_structures(max_abstract=6, max_stem=4, max_gap=3, min_abstract=1),
+                      ssref.st_structures(max_abstract=6, max_stem=4, max_gap=3, min_abstract=1),
+                      st.sampled_from([ssref.ladder(5, 1, 1), ssref.ladder(5, 2, 0), ssref.ladder(6, 2, 1), ssref.kissing_chain(4, [2, 3, 2, 3])]))
 
     for attempt in range(4):
         last = {}
